@@ -17,7 +17,7 @@
 (* through the real check.milter module (harness/extscancheck).            *)
 (*                                                                         *)
 (*   in = [sub |-> "milter", tab, msgid, conn, utf8, from, rcpts, hdr,     *)
-(*         body, fo, srv, net, form, ver, proto, script]                   *)
+(*         body, place, fo, srv, net, form, ver, proto, script]            *)
 (*     conn   [kind, addr, port, helo, auth, tls, rdns]: the SMTP session  *)
 (*            (module.ConnState); kind "tcp4" / "mapped" (::ffff:a.b.c.d)  *)
 (*            / "tcp6" / "unix" / "other" (an address type maddy does not  *)
@@ -25,7 +25,12 @@
 (*            locally, e.g. a delivery status notification)                *)
 (*     hdr    sequence of [n, v, ln, nv]: field name, raw value (may be    *)
 (*            folded), lower-case name, value with folding removed         *)
-(*     body   "small" (7 bytes), "empty", "big" (70000 bytes: two chunks)  *)
+(*     body   "small" (7 bytes), "empty", "big" (70000 bytes: two chunks),  *)
+(*            "unreadable" (the server cannot open its own copy)           *)
+(*     place  where the check is written: the top-level check block        *)
+(*            ("global") or the check block of a source / destination      *)
+(*            block (the state of the check is then created when the       *)
+(*            pipeline first visits that block)                            *)
 (*     fo     fail_open: "absent", "yes", "no"                             *)
 (*     srv    "up", "down" (nobody listens at the endpoint), "negdrop"     *)
 (*            (connection lost during option negotiation), "negbad"        *)
@@ -111,9 +116,11 @@ IsIo(a) == a.k \in IoK
 Odd(a) == a.k = "reply" /\ (a.code \div 100) \notin {4, 5}
 
 IoMsg  == "I/O error during policy check"
+InternalMsg == "Internal error during policy check"
 
 Has(i, opt) == opt \in Range(i.proto)
 FailOpen(i) == i.fo = "yes"                        \* fail_open  Default: false
+Unreadable(i) == i.body = "unreadable" /\ ~Has(i, "nobody")
 
 -----------------------------------------------------------------------------
 (* the values of the real session, as the milter is to see them            *)
@@ -243,6 +250,9 @@ BodyStage(devs, i, st) ==
        ELSE LET n == IF Has(i, "noeoh") THEN Skipped(h.st)
                      ELSE Ask(h.st, i, "eoh", 0, E("N", <<>>), i.script.eoh, "nr_eoh") IN
        IF n.a.k \notin ContK THEN Fin(devs, i, n) @@ [applied |-> FALSE]
+       ELSE IF Unreadable(i)
+            \* "Not ioError(err) because fail_open directive is applied only for external I/O"
+            THEN [st |-> n.st, r |-> Rej(451, ".7.1", InternalMsg), applied |-> FALSE]
        ELSE LET b == BodyLoop(i, n.st, 1) IN
        IF b.a.k \notin ContK THEN Fin(devs, i, b) @@ [applied |-> FALSE]
        ELSE LET e == Ask(b.st, i, "eob", 0, E("E", <<>>), i.script.fin, "")
@@ -365,6 +375,7 @@ Viol(i, o) ==
   \cup
   (IF ~up \/ ~IsPrefix(cs, FullSeq(i)) \/ Len(cs) = Len(FullSeq(i))
       \/ (Len(cs) > 0 /\ MayEnd(i, cs, Len(cs)))
+      \/ (Unreadable(i) /\ Len(cs) = Len(FullSeq(i)) - 1)        \* everything but end-of-body
       \/ (Len(cs) > 0 /\ Last(cs).c = "R" /\ Count(cs, Len(cs), "R") = Len(i.rcpts)
           /\ \A n \in Idx(cs, {"R"}) : AnsAt(i, cs, n).k \notin ContK)
    THEN {} ELSE {"EveryStepShown"})
@@ -409,9 +420,14 @@ Viol(i, o) ==
   (IF ~startOk \/ ~anyRcpt THEN (IF o.body.k = "n/a" THEN {} ELSE {"Translation"})
    ELSE IF ~up THEN (IF o.body.k = "ok" THEN {} ELSE {"IoFollowsFailOpen"})
    ELSE LET S == Idx(cs, {"L", "N", "B", "E"}) IN
-        IF S = {} THEN (IF (IF DeadFC(i, cs) THEN TempRej(o.body) ELSE o.body.k = "ok") THEN {} ELSE {"IoFollowsFailOpen"})
+        IF S = {} THEN (IF (IF DeadFC(i, cs) \/ (Unreadable(i) /\ Len(cs) = Len(FullSeq(i)) - 1
+                                                  /\ ~(Len(cs) > 0 /\ MayEnd(i, cs, Len(cs)))) THEN TempRej(o.body)
+                                ELSE o.body.k = "ok") THEN {} ELSE {"IoFollowsFailOpen"})
         ELSE LET a == AnsAt(i, cs, Max(S)) IN
-             IF Allowed(i, a, o.body) THEN {} ELSE IF IsIo(a) THEN {"IoFollowsFailOpen"} ELSE {"Translation"})
+             \* a local failure of the server refuses the message with a temporary code, whatever fail_open says
+             IF Unreadable(i) /\ a.k \in ContK /\ cs[Max(S)].c \in {"L", "N"} /\ Max(S) = Len(FullSeq(i)) - 1
+             THEN (IF TempRej(o.body) THEN {} ELSE {"LocalFailure"})
+             ELSE IF Allowed(i, a, o.body) THEN {} ELSE IF IsIo(a) THEN {"IoFollowsFailOpen"} ELSE {"Translation"})
   \cup
   (* what the target gets: the message iff nothing refused it; the quarantine flag iff the milter asked for it;  *)
   (* the added header fields, byte for byte, on top of the untouched original ones                                *)
@@ -459,7 +475,7 @@ ModsFor(tab) == IF tab = "main" /\ Full THEN Range(ModSets)
                 ELSE {ModSets[1], ModSets[4]}
 
 AnsFor(tab) == CASE tab \in {"main"} -> AllAns
-                 [] tab \in {"body", "mixed"} -> SomeAns
+                 [] tab \in {"body", "mixed", "place"} -> SomeAns
                  [] tab = "fo" -> IoAns
                  [] tab = "lib" -> LibAns
                  [] tab \in {"proto", "nr"} -> FewAns
@@ -477,7 +493,7 @@ Rcpts(n) == SubSeq(<<"r1@rcpt.test", "r2@rcpt.test">>, 1, n)
 
 Row(tab, conn, utf8, from, nr, hdr, body, fo, srv, net, form, ver, proto) ==
   [sub |-> "milter", tab |-> tab, msgid |-> "verifmsg01", conn |-> conn, utf8 |-> utf8, from |-> from, rcpts |-> Rcpts(nr),
-   hdr |-> hdr, body |-> body, fo |-> fo, srv |-> srv, net |-> net, form |-> form, ver |-> ver, proto |-> proto,
+   hdr |-> hdr, body |-> body, place |-> "global", fo |-> fo, srv |-> srv, net |-> net, form |-> form, ver |-> ver, proto |-> proto,
    script |-> Script0(nr, Len(hdr), Len(Chunks(body)))]
 Base(tab, fo) == Row(tab, C4, FALSE, "a@sender.test", 1, Hdr2, "small", fo, "up", "tcp", "inline", 6, <<>>)
 
@@ -509,6 +525,11 @@ InNet == \E n \in {"tcp", "unix"}, fm \in {"inline", "directive"} : in = [Base("
 (* (g) body sizes, header shapes *)
 InBody == \E b \in {"empty", "big"}, fo \in {"yes", "no"} :
             in = [Base("body", fo) EXCEPT !.body = b, !.script = Script0(1, 2, Len(Chunks(b)))]
+InUnreadable == \E fo \in {"yes", "no"}, p \in {<<>>, <<"nobody">>, <<"nohdrs", "noeoh">>} :
+                  in = [Base("body", fo) EXCEPT !.body = "unreadable", !.proto = p, !.script = Script0(1, 2, 0)]
+(* (g2) the check written in a source / destination block: same dialogue, same answers *)
+InPlace == \E pl \in {"global", "source", "destination"}, fo \in {"yes", "no"} :
+             in = [Base("place", fo) EXCEPT !.place = pl, !.rcpts = Rcpts(2), !.script = Script0(2, 2, 1)]
 InHdr == in = [Base("hdr", "no") EXCEPT !.hdr = HdrOdd, !.script = Script0(1, Len(HdrOdd), 1)]
 (* (h) the server side of go-milter as the milter *)
 InLib == \E fo \in {"yes", "no"} : in = [Base("lib", fo) EXCEPT !.srv = "lib", !.ver = 2]
@@ -540,7 +561,7 @@ RProto == <<<<>>, <<>>, <<>>, <<>>, <<"noconnect">>, <<"nohelo">>, <<"nomail">>,
 RandRow(n) ==
   LET d(k) == Draw(n, k)
       nr == (d(1) % 2) + 1
-      bd == Pick(<<"small", "small", "empty", "big">>, d(2))
+      bd == Pick(<<"small", "small", "small", "empty", "big", "unreadable">>, d(2))
       hd == Pick(<<Hdr2, Hdr2, HdrOdd>>, d(3))
       c0 == Pick(RConns, d(4))
       cn == [c0 EXCEPT !.tls = Pick(<<"none", "none", "1.2", "1.3">>, d(5)),
@@ -557,14 +578,21 @@ RandRow(n) ==
 InMixed == \E n \in 1..RandN : in = RandRow(n)
 
 -----------------------------------------------------------------------------
-Init == InMain \/ InFo \/ InConn \/ InProto \/ InNr \/ InSrv \/ InNegVer \/ InNet \/ InBody \/ InHdr \/ InLib \/ InProg
-        \/ InStall \/ InMixed
+Init == InMain \/ InFo \/ InConn \/ InProto \/ InNr \/ InSrv \/ InNegVer \/ InNet \/ InBody \/ InUnreadable \/ InPlace
+        \/ InHdr \/ InLib \/ InProg \/ InStall \/ InMixed
 
 Reveal(s) == Need(in).s = s
-RevealConn == Reveal("conn") /\ \E a \in AnsFor(in.tab) : in' = [in EXCEPT !.script.conn = a]
-RevealHelo == Reveal("helo") /\ \E a \in AnsFor(in.tab) : in' = [in EXCEPT !.script.helo = a]
-RevealMail == Reveal("mail") /\ \E a \in AnsFor(in.tab) : in' = [in EXCEPT !.script.mail = a]
-RevealRcpt == Reveal("rcpt") /\ \E a \in AnsFor(in.tab) : in' = [in EXCEPT !.script.rcpt[Need(in).j] = a]
+(* the placement table keeps the stages before the first recipient going: a refusal there is reported at MAIL  *)
+(* or at RCPT depending on when the pipeline creates the state, which is msgpipeline's business (C06)          *)
+EarlyAns(tab) == IF tab = "place" THEN {Cont} ELSE AnsFor(tab)
+RevealConn == Reveal("conn") /\ \E a \in EarlyAns(in.tab) : in' = [in EXCEPT !.script.conn = a]
+RevealHelo == Reveal("helo") /\ \E a \in EarlyAns(in.tab) : in' = [in EXCEPT !.script.helo = a]
+RevealMail == Reveal("mail") /\ \E a \in EarlyAns(in.tab) : in' = [in EXCEPT !.script.mail = a]
+(* (a refusal of the first recipient of a destination block makes the pipeline drop the state it has just       *)
+(* created; the next recipient gets a new state, i.e. a second connection and a replayed envelope: msgpipeline's  *)
+(* business as well, see extensions/X07.md)                                                                        *)
+RcptAns(tab, j) == IF tab = "place" /\ j = 1 THEN {Cont} ELSE AnsFor(tab)
+RevealRcpt == Reveal("rcpt") /\ \E a \in RcptAns(in.tab, Need(in).j) : in' = [in EXCEPT !.script.rcpt[Need(in).j] = a]
 RevealHdr  == Reveal("hdr")  /\ \E a \in AnsFor(in.tab) : in' = [in EXCEPT !.script.hdr[Need(in).j] = a]
 RevealEoh  == Reveal("eoh")  /\ \E a \in AnsFor(in.tab) : in' = [in EXCEPT !.script.eoh = a]
 RevealBody == Reveal("body") /\ \E a \in AnsFor(in.tab) : in' = [in EXCEPT !.script.body[Need(in).j] = a]
